@@ -235,6 +235,17 @@ func (s *scope) CreateScope(ctx context.Context) (Scope, error) {
 	s.rootProvider.scopes[child] = struct{}{}
 	s.rootProvider.scopesMu.Unlock()
 
+	// This scope may have been closed between the two registrations: its Close
+	// took the child from the children table and closed it, and the child's own
+	// Close found nothing to remove from the provider's table yet. Do not hand
+	// out a closed scope, and do not leave it in the provider's table.
+	if atomic.LoadInt32(&child.disposed) != 0 {
+		s.rootProvider.scopesMu.Lock()
+		delete(s.rootProvider.scopes, child)
+		s.rootProvider.scopesMu.Unlock()
+		return nil, ErrScopeDisposed
+	}
+
 	// Auto-close on context cancellation
 	go func() {
 		<-ctx.Done()
